@@ -194,7 +194,11 @@ def reference(model, VE):
         ps = t["pos_shape"]
         if not ps or ps[0] == 0:
             M.add((p, VE.NoPositions))
-        if refs:
+        if ps is None:
+            # there is no positions array at all (its link is gone): "positions are not set" is the report the catalogue has for it;
+            # what the comparisons with the missing array say is not decided by the statement
+            O.update({(p, VE.PositionsDimensionMismatch), (p, VE.PositionsExtentsMismatch), (p, VE.ExtentsDimensionMismatch)})
+        elif refs:
             posdim = 1 if len(ps) == 1 else ps[1]
             if any(posdim != len(r["shape"]) for r in refs):
                 M.add((p, VE.PositionsDimensionMismatch))
@@ -584,7 +588,9 @@ def injections(nix, np):
     add("missing_descriptors", del_dims)
 
     def pick_tag(G, which, need_refs=False, need_units=False):
-        c = [t for t in G.model[which] if (not need_refs or t["refs"]) and (not need_units or any(t["units"]))]
+        # (a multi-tag whose positions link was removed by an earlier injection takes no further injection)
+        c = [t for t in G.model[which] if (not need_refs or t["refs"]) and (not need_units or any(t["units"]))
+             and not (which == "mtags" and t["pos_shape"] is None)]
         return G.rng.choice(c) if c else None
 
     def set_units(G, t, us):
@@ -697,6 +703,19 @@ def injections(nix, np):
         t["pos_shape"] = shape
         return "mtag"
     add("no_positions", mtag_no_positions)
+
+    def mtag_positions_gone(G):
+        """the multi-tag has no positions array any more (what deleting that array leaves behind)"""
+        t = pick_tag(G, "mtags")
+        if t is None or t["pos_shape"] is None:
+            return None
+        g = G.live[t["path"]]._h5group.group
+        if "positions" not in g:
+            return None
+        del g["positions"]
+        t["pos_shape"] = None
+        return "mtag"
+    add("positions_link_missing", mtag_positions_gone)
 
     def mtag_pos_dim(G):
         t = pick_tag(G, "mtags", need_refs=True)
